@@ -507,7 +507,10 @@ func (w *e1World) evaluate(s *sched, cfg *e1Config) {
 		final := hashSet(l.GetEntries())
 		last := seqs[i][len(seqs[i])-1].set
 		if !setEq(final, last) {
-			r.Harness("state recording of %s is incomplete: final %d vs last recorded %d", w.names[i], len(final), len(last))
+			if d := diff(sortedKeys(last), sortedKeys(final)); len(d) > 0 {
+				r.Violate(prop+":entries-vanished", "%s ends with %d entries; %v were in it after its last mutation and are gone", w.names[i], len(final), w.names_(d))
+			}
+			r.Violate(prop+":unrecorded-mutation", "%s ends with entries %v that no Append or Join put there", w.names[i], w.names_(diff(sortedKeys(final), sortedKeys(last))))
 		}
 		// structural sanity of every final log
 		heads := sortedCopy(hashSeq(l.Heads()))
